@@ -147,6 +147,8 @@ type World struct {
 	AccessHook func(t *Task, addr any, write bool, site int)
 	// OnStep, when set, is called by the scheduler after every step (omniscient invariant checks).
 	OnStep func()
+	// OnOp, when set, is called by the scheduler for every task operation it resumes, with the decision taken.
+	OnOp func(t *Task, op *Op, d Decision)
 	nextID int
 }
 
@@ -493,6 +495,9 @@ func (w *World) runTask(t *Task) {
 	}
 	if op.Sys {
 		w.Stats.Syscalls++
+	}
+	if w.OnOp != nil {
+		w.OnOp(t, op, d)
 	}
 	t.Steps++
 	extra := ""
